@@ -113,6 +113,8 @@ def run(chk):
         res_t = table_scenarios(repo)
         table_decided = True
         for acc, desc, ok_, detail in res_t:
+            if acc.startswith("Cache."):
+                continue  # (decided under C11)
             chk.ob("R1t", tmod, tmod.func(acc), f"{acc}: {desc}", ok_, f"column access on a table: {detail}")
         chk.floor("R1t", "table accessor scenarios", len(res_t), 18)
     except (AnalysisError, SymbolicBranch) as e:
@@ -121,10 +123,31 @@ def run(chk):
         table_decided = True
         chk.ob("R1t", tmod, tmod.func("Table.__getattr__"), "Table accessors on the stub table", False, f"building the stub table raises {p_.name}: {p_.msg}")
 
+    # ---- R1v: the verbs' refusals decided on the interpreted verb functions (verbsim); the rule instances of R1 that those
+    # scenarios cover are only read from the raise statements when the interpretation is not possible
+    decided_iids = set()
+    try:
+        _verb_scenarios(chk)
+        decided_iids |= {"select-unknown", "select-hidden", "rename-unknown", "rename-duplicate", "rename-duplicate-new", "rename-valtype",
+                         "group_by-hidden", "slice-grouped"}  # fmt: skip
+    except (AnalysisError, SymbolicBranch) as e:
+        chk.undecided.append(f"R1v: the verb functions could not be interpreted ({str(e)[:140]})")
+    try:
+        from ..model import model_of as _mo1
+        from .c07 import _union_scenarios
+
+        _union_scenarios(chk, _mo1(chk), rule="R1v")
+        decided_iids |= {"union-backend", "union-grouped-left", "union-grouped-right", "union-names"}
+    except (AnalysisError, SymbolicBranch) as e:
+        chk.undecided.append(f"R1v: _union_impl could not be interpreted ({str(e)[:140]})")
+
     # ---- R1
     for iid, short, fq, exc, needles, what in INSTANCES:
         if table_decided and iid in ("table-getattr", "table-getitem"):
             continue  # decided by R1t
+        if iid in decided_iids:
+            chk.ok("R1", repo.mod(short), repo.mod(short).func(fq), f"{iid}: {what} -> {exc} (decided by R1v on the interpreted verb)")
+            continue
         mod = repo.mod(short)
         f = mod.func(fq)
         hit = None
@@ -149,8 +172,6 @@ def run(chk):
     from ..model import model_of as _mo
 
     colexprsim.report(chk, _mo(chk), "R1m", ["wrap_literals", "CaseExpr.ftype", "ColFn.ftype"], floor=200)
-
-    _verb_scenarios(chk)
 
     # ---- R2
     for short, fq, trav in TRAVERSAL_USERS:
@@ -187,7 +208,10 @@ def run(chk):
     # must between them mention every attribute iter_children yields from (else a type error nested in that
     # child - e.g. in a `partition_by=` / `arrange=` argument - is never raised by the verb call)
     n_dt = 0
-    for ci in sym.colexpr_classes():
+    # decided on the interpreted dtype() methods with a child whose own dtype() raises, in every child slot (colexprsim); the
+    # attribute bookkeeping below is the fallback
+    eager_decided = colexprsim.report(chk, _mo(chk), "R2", ["eager.dtype"], floor=9)
+    for ci in sym.colexpr_classes() if not eager_decided else ():
         ic, dt = ci.methods.get("iter_children"), ci.methods.get("dtype")
         if ic is None or dt is None:
             continue
@@ -212,7 +236,8 @@ def run(chk):
         chk.ob("R2", ci.module, dt, f"{ci.name}.dtype type-checks every child attribute {sorted(ra)}", ra <= checked,
                f"{ci.name}.dtype() calls .dtype() on {sorted(checked & ra)} only, but the node's children also live in {sorted(ra - checked)}: "
                "type errors nested there are not raised when the expression is built / preprocessed")  # fmt: skip
-    chk.floor("R2", "expression classes with own dtype() and iter_children()", n_dt, 3)
+    if not eager_decided:
+        chk.floor("R2", "expression classes with own dtype() and iter_children()", n_dt, 3)
 
     # ---- R3
     ce = repo.mod("tree.col_expr")
